@@ -64,6 +64,22 @@ CHECKS = {
                      "from the current pkgs/std/thread.dora, the runtime side is the real code. The address-keyed wait table is "
                      "explored breadth-first (insert/remove/lookup-absent/epoch actions) against a BTreeMap.",
                 note="atomic intrinsics are modelled as SeqCst RMWs; real OS scheduling of compiled programs is out of scope"),
+    "C10": dict(level="exploration", engine="progspace", design="5/C10",
+                technique="exhaustive static analysis of every function of every emitted assembly file in a declared corpus x code "
+                          "generators x targets x collectors: metadata tables decoded, code disassembled with llvm-mc, per-call-site "
+                          "data-flow of the frame extent; no sampling inside a file",
+                text="For hello/std, the optimizing compiler's own image (and its test image), the runnable corpus and generator units, "
+                     "compiled by the baseline generator (x64) and the optimizing generator (x64 and arm64) for the collectors: every call "
+                     "to managed code, a runtime entry, the safepoint or allocation slow path and every indirect call has a stack map at "
+                     "its return offset; every map sits at the return offset of some call (or offset 0 of a trampoline); slots are "
+                     "distinct, 8-aligned and inside the frame as it is at that call (interior pairs likewise, disjoint from plain "
+                     "slots); code ranges are disjoint, ordered, one per symbol; gcpoint/location/inlined tables partition exactly; "
+                     "locations are strictly increasing, inside the function, on instruction boundaries, inlined chains acyclic; no "
+                     "collecting call before the entry poll and every loop contains a poll. quick: 187 files / 13k functions / 105k "
+                     "required sites; thorough: 5 959 files / 203k functions / 1.87M required sites.",
+                note="a map that is present and well-formed but names too few slots is not detectable statically (C03's collection-point "
+                     "enumeration covers that); `--cannon --target arm64` is not a supported configuration and is excluded; array zero-fill "
+                     "and ll/sc micro loops have no poll by design; trusts llvm-mc 14"),
     "C12": dict(level="model_checking", engine="sched", design="5/C12",
                 technique="loom model checking of the real Terminator with 2-4 workers per enumerated publish pattern",
                 text="For every rooted forest over <= 3 (4 thorough) work items with every local/shared assignment of its "
